@@ -5,6 +5,7 @@ CONSTANTS
  MaxFaults = 0
  MaxCrashes = 0
  MaxIdxLoss = 0
+ SyncFlush = TRUE
  InlineAt = 0
  Interval = 2
  MBs = {0,9,80,200}
